@@ -4,7 +4,7 @@ from __future__ import annotations
 import copy
 
 from vf import absval as av
-from vf.common import Acc, Ctx, norm_msg, to_tuple
+from vf.common import Acc, CpuTimeout, Ctx, cpu_limit, norm_msg, to_tuple
 from vf.gen import values as gv
 from vf.ref import ber, rfc4511
 
@@ -35,7 +35,7 @@ def gates(c, tier):
         if c.get("freedom:" + lf, 0) == 0:
             out.append(f"length form {lf} never applied")
     for k in ("freedom:TRUE!=ff", "freedom:explicit-default:criticality", "freedom:explicit-default:dnAttributes", "freedom:trailing", "freedom:trailing-after-all-components",
-              "ad-style-all-84", "via:unpack", "via:receive", "systematic"):
+              "ad-style-all-84", "via:unpack", "via:receive", "via:receive-two-pieces", "systematic"):
         if c.get(k, 0) == 0:
             out.append(f"never applied: {k}")
     for op in gv.OPS:
@@ -121,30 +121,40 @@ def decode_both(data: bytes, a, acc_count):
     for via in ("unpack", "receive"):
         acc_count("via:" + via)
         try:
-            if via == "unpack":
-                rd = sl.asn1.ASN1Reader(data)
-                m = sl._messages.unpack_ldap_message(rd, sl._messages.PackingOptions())
-                rem = rd.get_remaining_data()
-                if rem:
-                    out.append((f"left-over:{op}", f"decoder left {len(rem)} bytes of a single valid message"))
-            else:
-                sess = sl.LDAPSession()
-                try:
-                    ms = sess.receive(data)
-                except sl.ProtocolError as e:
-                    if e.request is not None and (op == "UnbindRequest" or (op == "ExtendedResponse" and a[2][1] == gv.NOTICE_OID)):
-                        ms = [e.request]
-                    else:
-                        raise
-                if len(ms) != 1:
-                    out.append((f"receive-count:{op}", f"receive returned {len(ms)} messages for one valid PDU"))
-                    continue
-                m = ms[0]
-            got = av.abstract(m)
-            if got != a:
-                # locate the differing part for the key
-                part = "id" if got[1] != a[1] else ("body" if got[2] != a[2] else "controls")
-                out.append((f"alt-diff:{op}:{part}", f"{via}: alternative valid encoding decodes to a different message: {str(got)[:160]} expected {str(a)[:160]}"))
+            with cpu_limit(5):
+                if via == "unpack":
+                    rd = sl.asn1.ASN1Reader(data)
+                    m = sl._messages.unpack_ldap_message(rd, sl._messages.PackingOptions())
+                    rem = rd.get_remaining_data()
+                    if rem:
+                        out.append((f"left-over:{op}", f"decoder left {len(rem)} bytes of a single valid message"))
+                else:
+                    sess = sl.LDAPSession()
+                    try:
+                        if len(data) > 2 and (len(data) % 3):
+                            # two pieces: cut inside the first header octets, or anywhere
+                            cut = (1 + (len(data) * 7) % min(7, len(data) - 1)) if len(data) % 3 == 1 else max(1, (len(data) * 5) % len(data))
+                            ms = sess.receive(data[:cut])
+                            ms = ms + sess.receive(data[cut:])
+                            acc_count("via:receive-two-pieces")
+                        else:
+                            ms = sess.receive(data)
+                    except sl.ProtocolError as e:
+                        if e.request is not None and (op == "UnbindRequest" or (op == "ExtendedResponse" and a[2][1] == gv.NOTICE_OID)):
+                            ms = [e.request]
+                        else:
+                            raise
+                    if len(ms) != 1:
+                        out.append((f"receive-count:{op}", f"receive returned {len(ms)} messages for one valid PDU"))
+                        continue
+                    m = ms[0]
+                got = av.abstract(m)
+                if got != a:
+                    # locate the differing part for the key
+                    part = "id" if got[1] != a[1] else ("body" if got[2] != a[2] else "controls")
+                    out.append((f"alt-diff:{op}:{part}", f"{via}: alternative valid encoding decodes to a different message: {str(got)[:160]} expected {str(a)[:160]}"))
+        except CpuTimeout:
+            out.append((f"alt-no-return:{op}", f"{via}: decoding a {len(data)}-byte valid alternative encoding did not return within 5 CPU-seconds"))
         except Exception as e:
             out.append((f"alt-exc:{op}:{norm_msg(e)}", f"{via}: valid alternative encoding raised {type(e).__name__}: {e}"))
     return out
